@@ -461,7 +461,10 @@ mod builtins {
                     usize::try_from((distance + step - 1) / step).unwrap_or(usize::MAX)
                 };
 
-                let iter = (0..len).map(move |i| start + (i as isize) * step);
+                // every element lies between end and start, but `i * step` alone can
+                // leave the isize range (three steps of -2^62 from isize::MAX)
+                let iter =
+                    (0..len).map(move |i| (start as i128 + (i as i128) * (step as i128)) as isize);
                 to_result(iter)
             }
         }
